@@ -5,6 +5,7 @@ import LiteFSVerif.Driver.EngineD
 import LiteFSVerif.Driver.ClusterD
 import LiteFSVerif.Driver.ProxyD
 import LiteFSVerif.Driver.ApiD
+import LiteFSVerif.Driver.BackupD
 
 open LiteFSVerif LiteFSVerif.Driver
 
@@ -22,6 +23,7 @@ def main (args : List String) : IO UInt32 := do
   | ["cluster"] => loop stdin stdout ClusterD.step {}; return 0
   | ["proxy"] => loop stdin stdout ProxyD.step {}; return 0
   | ["api"] => loop stdin stdout ApiD.step {}; return 0
+  | ["backup"] => loop stdin stdout BackupD.step {}; return 0
   | ["codec"] => loop stdin stdout Codec.stepModel (); return 0
   | _ =>
     IO.eprintln "usage: modeld <suite>"
